@@ -80,7 +80,9 @@ def same(a, b, path=''):
             x, y = getattr(a, f.name), getattr(b, f.name)
             p = (path + '.' if path else '') + nm
             if (cn, nm) in TEXT_ONLY:
-                out.append((p, (x is None) == (y is None)))
+                # exempt text; presence matters only where it determines the status (not on completed/infeasible trials)
+                completed = getattr(a, 'final_measurement', None) is not None or getattr(a, 'infeasible', False)
+                out.append((p, True if completed else (x is None) == (y is None)))
             elif (cn, nm) in MICRO:
                 out.append((p, abs(x - y) < 1e-6))
             elif f.eq_key is not None:
